@@ -202,7 +202,8 @@ impl<RH: BuildHasher, FH: BuildHasher, GH: BuildHasher> TwoQueueCacheBuilder<RH,
         let recent = RawLRU::with_hasher(size, self.recent_hasher.unwrap()).unwrap();
         let freq = RawLRU::with_hasher(size, self.freq_hasher.unwrap()).unwrap();
 
-        let ghost = RawLRU::with_hasher(es, self.ghost_hasher.unwrap()).unwrap();
+        // a ghost ratio that leaves no room for ghosts is an invalid size, not a panic
+        let ghost = RawLRU::with_hasher(es, self.ghost_hasher.unwrap())?;
 
         Ok(TwoQueueCache {
             size,
